@@ -187,7 +187,7 @@ impl Prop for C02 {
                     gen: enum_small,
                 },
             },
-            Stage { name: "random", kind: StageKind::Random { strategy: strat, cases: tier.pick(300_000, 5_000_000) } },
+            Stage { name: "random", kind: StageKind::Random { strategy: strat, cases: tier.pick(1_000_000, 6_000_000) } },
         ]
     }
     fn check(case: &Case, obs: &mut Obs) -> Verdict {
